@@ -512,12 +512,41 @@ class Conds:
             if len(labels) == 1:
                 lab = labels[0][1]
                 facts = self._facts_for(e, ty, lab, all_vals)
+                if ty == "bool":
+                    # also name the bool variable itself: ('ltruth', local, truth)
+                    root = self._root_bool_local(t["discr"])
+                    tr = None
+                    if lab == "otherwise":
+                        tr = True if all_vals == [0] else (False if all_vals == [1] else None)
+                    else:
+                        tr = bool(lab)
+                    if root is not None and tr is not None:
+                        facts = facts + [("ltruth", root, tr)]
             else:
                 # several labels to the same target: disjunction; keep only what is common
                 sets = [self._facts_for(e, ty, lab[1], all_vals) for lab in labels]
                 facts = [("anyof", sets)]
         self._edge_facts[key] = facts
         return facts
+
+    def _root_bool_local(self, op):
+        fn = self.fn
+        p = op_place(op)
+        seen = set()
+        while p is not None and is_plain_local(p) and p["l"] not in seen:
+            l = p["l"]
+            seen.add(l)
+            if fn.locals[l]["user"] or fn.is_param(l):
+                return l
+            sd = fn.single_def(l)
+            if sd is None or sd[2] != "assign":
+                return l
+            rv = fn.blocks[sd[0]]["stmts"][sd[1]]["rv"]
+            if rv["k"] == "use" and op_place(rv["op"]) is not None:
+                p = op_place(rv["op"])
+            else:
+                return l
+        return None
 
     def _facts_for(self, e, ty, lab, all_vals):
         pe = peel_bool(e)
@@ -1163,3 +1192,103 @@ def store_delta(fn, st):
     if not isinstance(c, int) or isinstance(c, bool):
         return ("sym", op, src["b"])
     return ("const", c if op == "Add" else -c)
+
+
+# ------------------------------------------------------------------------------------ feasible reachability
+
+def _scrutinee_key(fn, op):
+    """(key, base locals) identifying the value a switch examines: the place itself, or
+    `discr:<place>` when the operand is a temp holding a discriminant."""
+    p = op_place(op)
+    if p is None:
+        return None
+    if is_plain_local(p) and not fn.locals[p["l"]]["user"]:
+        sd = fn.single_def(p["l"])
+        if sd and sd[2] == "assign":
+            rv = fn.blocks[sd[0]]["stmts"][sd[1]]["rv"]
+            if rv["k"] == "discr":
+                return ("discr:" + mir.fmt_place(rv["place"]), _locals_of(rv["place"]))
+            if rv["k"] == "use" and op_place(rv["op"]) is not None:
+                q = op_place(rv["op"])
+                return (mir.fmt_place(q), _locals_of(q))
+        return None
+    return (mir.fmt_place(p), _locals_of(p))
+
+
+def _locals_of(p):
+    s = {p["l"]}
+    for el in p.get("p", []):
+        if isinstance(el, dict) and "index" in el:
+            s.add(el["index"])
+    return frozenset(s)
+
+
+def reachable_feasible(fn, start, removed_edges=(), removed_blocks=(), max_states=200000):
+    """Blocks reachable from `start` along paths on which no switch scrutinee is required to take
+    two different values (a match on (a, b) re-tests the same scrutinee in several blocks; the
+    plain CFG then contains paths no execution can take).  Knowledge about a scrutinee is dropped
+    when one of the locals it is read from is assigned."""
+    removed_edges = set(removed_edges)
+    removed_blocks = set(removed_blocks)
+    assigns = {}
+    for b in fn.live_blocks():
+        s = set()
+        for st in fn.stmts(b):
+            if st["k"] in ("assign", "setdiscr"):
+                s.add(st["dst"]["l"])
+        t = fn.term(b)
+        if t["k"] == "call":
+            s.add(t["dst"]["l"])
+        assigns[b] = s
+    keys = {}
+    for b in fn.live_blocks():
+        t = fn.term(b)
+        if t["k"] == "switch":
+            keys[b] = _scrutinee_key(fn, t["discr"])
+    seen = set()
+    out = set()
+    work = [(start, frozenset())]
+    n = 0
+    while work:
+        b, know = work.pop()
+        if b in removed_blocks:
+            continue
+        # invalidate knowledge on assigned locals
+        if know and assigns[b]:
+            know = frozenset(k for k in know if not (k[3] & assigns[b]))
+        if (b, know) in seen:
+            continue
+        seen.add((b, know))
+        n += 1
+        if n > max_states:
+            # give up on precision: fall back to plain reachability (sound over-approximation)
+            return fn.reachable(start, removed_edges, removed_blocks)
+        out.add(b)
+        t = fn.term(b)
+        if t["k"] == "switch" and keys.get(b) is not None:
+            key, bases = keys[b]
+            # a scrutinee read from a local assigned in this very block is only known afterwards
+            kd = {k[0]: k for k in know}
+            cur = kd.get(key)
+            vals = [v for v, _ in t["targets"]]
+            for lab, tg in fn.edges_of(b):
+                if (b, tg) in removed_edges or fn.blocks[tg].get("cleanup"):
+                    continue
+                v = lab[1]
+                if v == "otherwise":
+                    if cur is not None and cur[1] == "eq" and cur[2] in vals:
+                        continue  # infeasible
+                    ne = frozenset(vals) | (cur[2] if cur is not None and cur[1] == "ne" else frozenset())
+                    newk = (key, "ne", ne, bases) if cur is None or cur[1] == "ne" else cur
+                else:
+                    if cur is not None and ((cur[1] == "eq" and cur[2] != v) or (cur[1] == "ne" and v in cur[2])):
+                        continue  # infeasible
+                    newk = (key, "eq", v, bases)
+                nk = frozenset([k for k in know if k[0] != key] + [newk])
+                work.append((tg, nk))
+        else:
+            for s in fn.succs(b):
+                if (b, s) in removed_edges:
+                    continue
+                work.append((s, know))
+    return out
